@@ -141,18 +141,22 @@ Sole(p, o) ==
   /\ DecodeAt(img, XAddr(p, o)).tgt = TAddr(p, o)                 \* the table decodes X at its place with target T
 Kept(p, o) == WF(p, o) /\ Sole(p, o)
 
-VARIABLES prog, org
-vars == <<prog, org>>
+VARIABLES prog, org,
+          img,            \* the image (function address -> byte)
+          fin             \* the finished run of the worklist machine on it
+vars == <<prog, org, img, fin>>
+Ents == {EAddr(prog, org)}
 Init == /\ prog \in Progs
         /\ org \in Orgs
         /\ Kept(prog, org)
         /\ (OrgMode = "min" => \A o2 \in Orgs : o2 < org => ~Kept(prog, o2))
+        /\ img = ImageOf(prog, org)
+        /\ fin = Run(img, InitState(Ents, {}))
 Next == UNCHANGED vars
 
 \* ------------------------------------------------------------------------------------------ the expected run
-Img == ImageOf(prog, org)
-Ents == {EAddr(prog, org)}
-Fin == Run(Img, InitState(Ents, {}))
+Img == img
+Fin == fin
 InvDone == Done(Fin) /\ InsideImage(Img, Fin) /\ Fin.data = {}
 InvComplete == NoOverlap(Img, Ents) /\ Fin.code = ReachBytes(Img, Ents)
 InvTargetTraced == TBytes(prog, org) \subseteq Fin.code
